@@ -121,8 +121,9 @@ class Machine:
     def _compare(self, what: str, obs: Dict[str, Any], gspec: Dict[str, Any], nondet: bool) -> None:
         gold = golden.ask(gspec)
         self.stats["judged_ops"] += 1
-        if not obs.get("ident", True):
-            self._violate("node-identity", f"{what}: a result node's value is not the document object at its location")
+        if not obs.get("ident", True) and gold.get("ident", True):
+            # (relative to the solitary run: a tree whose nodes always carry copies is not judged here)
+            self._violate("node-identity", f"{what}: a result node's value is not the document object at its location, although it is in a solitary run")
         if nondet and gspec["entry"] == "find_one":
             # any node of the full result may come first in nondeterministic mode
             full = golden.ask({**gspec, "entry": "finditer"})
